@@ -21,6 +21,22 @@ def _is_new_sim(value, st):
     return False
 
 
+def _sim_kind(value, st):
+    """'S' if the new Simulation is built with sensitivities, else 'N'."""
+    if isinstance(value, ast.Name):
+        k = st.ts.get('newsim:' + value.id)
+        return k if k in ('S', 'N') else 'N'
+    if isinstance(value, ast.Call):
+        for kw in value.keywords:
+            if kw.arg == 'sensitivities' and not (
+                    isinstance(kw.value, ast.Constant)
+                    and kw.value.value is None):
+                return 'S'
+        if len(value.args) >= 3:
+            return 'S'
+    return 'N'
+
+
 def _split_attr(t):
     """X._attr -> (X text, attr) for X a Name"""
     if isinstance(t, ast.Attribute) and isinstance(t.value, ast.Name):
@@ -74,7 +90,14 @@ class PKPDWalker(Walker):
             st.ts.pop('newsim:' + target.id, None)
             st.ts.pop('cloneof:' + target.id, None)
             if _is_new_sim(value, st):
-                st.ts['newsim:' + target.id] = True
+                st.ts['newsim:' + target.id] = _sim_kind(value, st)
+            if isinstance(value, ast.Call) and U(value.func) in (
+                    'copy.deepcopy', 'copy.copy') and value.args and U(
+                    value.args[0]) == 'self':
+                # the clone starts with the original's flags
+                for k, v in list(st.env.items()):
+                    if k.startswith('self.') and isinstance(v, bool):
+                        st.env[target.id + k[4:]] = v
             if isinstance(value, ast.Call) and isinstance(
                     value.func, ast.Attribute) and value.func.attr == 'clone':
                 src = U(value.func.value)
@@ -93,6 +116,7 @@ class PKPDWalker(Walker):
             return
         if attr == '_simulator':
             if _is_new_sim(value, st):
+                st.ts['simkind:' + obj] = _sim_kind(value, st)
                 st.ts['sim:' + obj] = 'DET'
                 st.trace += (('rebuild', where, norm_stmt(target._parent)
                               if hasattr(target, '_parent') else ''),)
@@ -369,3 +393,48 @@ def r11_2(ctx, repo):
                        'one) on every exit under flags {%s}' % flags,
                        engine='typestate')
     ctx.floor(rule, 6)
+
+
+def r11_5(ctx, repo):
+    """A rebuilt simulator and the `_has_sensitivities` flag agree at every
+    exit (the flag decides how simulate() reads the solver's result)."""
+    rule = 'R11.5'
+    done = set()
+    for recv in repo.subclasses('SBMLModel'):
+        for m, k, fn, env, exits, trunc in _run_all(repo, recv):
+            construct = '%s.%s' % (recv, m)
+            for st in exits:
+                for key, kind in st.ts.items():
+                    if not key.startswith('simkind:'):
+                        continue
+                    obj = key[8:]
+                    flag = st.env.get('%s._has_sensitivities' % obj)
+                    want = (kind == 'S')
+                    flags = ', '.join('%s=%s' % kv for kv in env.items())
+                    if flag is want:
+                        if (construct, obj, 'ok') not in done:
+                            done.add((construct, obj, 'ok'))
+                            ctx.ok(rule, repo.loc(fn, k, m), construct,
+                                   'simulator rebuilt %s sensitivities and '
+                                   '%s._has_sensitivities = %s' % (
+                                       'with' if want else 'without', obj,
+                                       want), engine='typestate')
+                    elif flag is (not want):
+                        vkey = 'flag mismatch %s' % obj
+                        if (construct, vkey) in done:
+                            continue
+                        done.add((construct, vkey))
+                        ctx.violation(
+                            rule, repo.loc(fn, k, m), construct, vkey,
+                            '%s rebuilds the simulator of `%s` %s '
+                            'sensitivities but leaves '
+                            '`%s._has_sensitivities` = %s (flags {%s}): '
+                            'simulate() will %s' % (
+                                construct, obj,
+                                'with' if want else 'without', obj, flag,
+                                flags,
+                                'unpack a sensitivity array the solver does '
+                                'not return' if not want else
+                                'drop the sensitivities'),
+                            engine='typestate')
+    ctx.floor(rule, 4)
